@@ -166,12 +166,38 @@ let tohex (b : n list) : string =
 
 let no_oracle _ _ _ _ = nan
 
+(* C16: user oracles.  Oracle g wraps the expression with arena id oracle_tbl.(g); it answers
+   with that expression's value through its own pipeline (the harness' ExprOracle owns an
+   Evaluator of the wrapped tree).  Wrapped expressions are oracle-free. *)
+let oracle_tbl : (int, int) Hashtbl.t = Hashtbl.create 8
+let oracle_arena : float arena ref = ref []
+let rec osem_of (o : float ops) (g : nat) (x : float) (y : float) (z : float) : float =
+  match Hashtbl.find_opt oracle_tbl (int_of_nat g) with
+  | None -> nan
+  | Some e ->
+      let (a1, r) = optimized o !oracle_arena (nat_of_int e) in
+      let d = mk_deck a1 r in
+      tape_value o no_oracle d d.d_tape d.d_root (fun _ -> 0.0) x y z
+
+let rec length_nat = function [] -> O | _ :: r -> S (length_nat r)
+
+(* the oracle_at of the deck of (a, root), as Eval/OracleEval.v's [evaluator] builds it *)
+let oracle_at_of (o : float ops) (a : float arena) (d : float deck) =
+  let fuel = length_nat a in
+  fun k px py pz ->
+    match List.nth_opt d.d_oracles (int_of_nat k) with
+    | Some (_, id) -> oracle_obj o (osem_of o) fuel a id px py pz
+    | None -> nan
+
 (* value of handle [h] through the full pipeline in arithmetic [o] *)
 let eval_pipeline (o : float ops) (optimize : bool) (a : float arena) (h : int)
     (varval : int -> float) (x : float) (y : float) (z : float) : float =
   let (a1, r) = if optimize then optimized o a (nat_of_int h) else flatten o a (nat_of_int h) in
-  let d = mk_deck a1 r in
-  tape_value o no_oracle d d.d_tape d.d_root (fun v -> varval (int_of_nat v)) x y z
+  if Hashtbl.length oracle_tbl = 0 then
+    let d = mk_deck a1 r in
+    tape_value o no_oracle d d.d_tape d.d_root (fun v -> varval (int_of_nat v)) x y z
+  else
+    evaluator o (osem_of o) (S (length_nat a1)) a1 r (fun v -> varval (int_of_nat v)) x y z
 
 let () =
   let a = ref (init_arena f32) in
@@ -198,6 +224,7 @@ let () =
        | [] -> ()
        | "case" :: id :: _ ->
            case_id := id; cmd := 0; a := init_arena f32; handles := [||]; Hashtbl.reset optflag; noflags := false;
+           Hashtbl.reset oracle_tbl;
            Hashtbl.reset varidx; nvars := 0
        | ["end"] ->
            incr cmd;
@@ -252,6 +279,11 @@ let () =
                 Hashtbl.replace varidx (int_of_nat (snd res)) !nvars; incr nvars; set res
             | "un", [op; l] -> set (mk_unary f32 !a (op_of_name op) (nat_of_int (h l)))
             | "bin", [op; l; r] -> set (mk_bin f32 !a (op_of_name op) (nat_of_int (h l)) (nat_of_int (h r)))
+            | "oracle", [t] ->
+                let g = Hashtbl.length oracle_tbl in
+                Hashtbl.replace oracle_tbl g (h t);
+                set (push !a (NOracle (nat_of_int g)));
+                oracle_arena := !a
             | ("std" | "cstd"), k :: hs ->
                 if List.exists (fun s -> h s < 0) hs then add_handle (-1) else
                 (match std_dispatch f32 (nat_of_int (int_of_string k)) (List.map (fun s -> SH (nat_of_int (h s))) hs) with
@@ -288,7 +320,7 @@ let () =
                 let (a1, r) = flatten f64 !a (nat_of_int (h t)) in
                 let d = mk_deck a1 r in
                 let run vv x y z =
-                  let sl = eval_tape f64 no_oracle d d.d_tape
+                  let sl = eval_tape f64 (if Hashtbl.length oracle_tbl = 0 then no_oracle else oracle_at_of f64 a1 d) d d.d_tape
                       (set_point d (init_slots f64 d (fun v -> vv (int_of_nat v))) x y z) in
                   (List.nth sl (int_of_nat d.d_root),
                    List.fold_left (fun m v -> if Float.is_nan v then infinity else Float.max m (Float.abs v)) 0.0 sl) in
